@@ -129,7 +129,9 @@ def norm_src(node):
 
 
 def lineno(node):
-    return getattr(node, "lineno", 0)
+    """line in the file (the canonical tree numbers its statements in its own order)"""
+    src = getattr(node, "_src_line", None)
+    return src if src else getattr(node, "lineno", 0)
 
 
 def all_paths_return(block):
